@@ -41,16 +41,26 @@ def run(seed=0, per_fn=60, only=None):
         if only and prop != only:
             continue
         for fn, name, args, ret, partial, *opt in specs:
-            if opt:
+            if not tables._runnable(opt):  # --- T2: was `if opt:` (specs with a "driver" entry are run, see tables._runnable)
                 continue
             try:
-                tr.translate_function(fn, name, args, ret, partial)
+                tables._translate(fn, name, args, ret, partial, opt[0] if opt else None)  # --- T2: was tr.translate_function
             except Exception:
                 skipped.append(name)
                 continue
             g = gens[name]
             for _ in range(per_fn):
                 a = g(rng)
+                if opt:  # --- T2: the spec says how to call the Python function and what its exceptions mean
+                    drv_opt = opt[0]["driver"]
+                    try:
+                        w = drv_opt["result"](fn(*drv_opt["args"](a)))
+                    except drv_opt.get("raises", ()):
+                        w = None  # the translated definition must answer `none` (JSON null)
+                    reqs.append((name, {f"a{k}": x for k, x in enumerate(a)}))
+                    want.append(("exact", w))
+                    names.append((name, a))
+                    continue
                 pa = [tuple(x) if isinstance(x, list) else x for x in a]
                 try:
                     w = _canon(fn(*pa))
@@ -68,6 +78,10 @@ def run(seed=0, per_fn=60, only=None):
     got = drv.run(reqs) if reqs else []
     bad = []
     for (name, a), w, g in zip(names, want, got):
+        if isinstance(w, tuple) and len(w) == 2 and w[0] == "exact":  # --- T2: already canonical on both sides
+            if g != w[1]:
+                bad.append(f"{name}{tuple(a)}: python {w[1]!r}, translated definition {g!r}")
+            continue
         if _canon_model(g) != w:
             bad.append(f"{name}{tuple(a)}: python {w!r}, translated definition {g!r}")
     return len(reqs), bad, skipped
